@@ -3028,6 +3028,10 @@ Case_BaseLdurStur:
           if (!pick_fp_opcode(o0.as<Vec>(), op_data.element_scalar_op(), InstDB::kHF_D, op_data.element_vector_op(), InstDB::kHF_D, &opcode, &sz))
             goto InvalidInstruction;
 
+          // The indexed operand has the element type of the operation (H, S, or D).
+          if (uint32_t(o2.as<Vec>().element_type()) != sz + uint32_t(VecElementType::kH))
+            goto InvalidInstruction;
+
           if (sz == 0 && o2.as<Reg>().id() > 15)
             goto InvalidPhysId;
 
@@ -3377,7 +3381,7 @@ Case_BaseLdurStur:
           uint32_t x = op_gp.as<Reg>().is_gp64();
           uint32_t type = diff(op_vec.as<Reg>().reg_type(), RegType::kVec16);
 
-          if (type > 2u)
+          if (type > 2u || op_vec.as<Vec>().has_element_type())
             goto InvalidInstruction;
 
           type = (type - 1u) & 0x3;
@@ -3409,6 +3413,9 @@ Case_BaseLdurStur:
         if (op_gp.as<Reg>().is_gp() && op_vec.as<Reg>().is_vec()) {
           uint32_t x = op_gp.as<Reg>().is_gp64();
           uint32_t type = diff(op_vec.as<Reg>().reg_type(), RegType::kVec16);
+
+          if (type > 2u || op_vec.as<Vec>().has_element_type())
+            goto InvalidInstruction;
 
           uint32_t scale_limit = 32u << x;
           if (scale > scale_limit)
@@ -3661,7 +3668,7 @@ Case_BaseLdurStur:
         //   sD, vS.2s (32-bit)
         //   dD, vS.2d (64-bit)
         uint32_t sz = diff(o0.as<Reg>().reg_type(), RegType::kVec16);
-        if (sz > 2)
+        if (sz > 2 || o0.as<Vec>().has_element_type())
           goto InvalidInstruction;
 
         static const uint32_t szSignatures[3] = {
@@ -3711,7 +3718,7 @@ Case_BaseLdurStur:
       if (isign4 == ENC_OPS2(Reg, Reg)) {
         // The first destination operand is scalar, which matches element-type of source vectors.
         uint32_t L = (inst_flags & InstDB::kInstFlagLong) != 0;
-        if (diff(o0.as<Vec>().reg_type(), RegType::kVec8) != diff(o1.as<Vec>().element_type(), VecElementType::kB) + L)
+        if (diff(o0.as<Vec>().reg_type(), RegType::kVec8) != diff(o1.as<Vec>().element_type(), VecElementType::kB) + L || o0.as<Vec>().has_element_type())
           goto InvalidInstruction;
 
         SizeOp size_op = element_type_to_size_op(op_data.vec_op_type, o1.as<Reg>().reg_type(), o1.as<Vec>().element_type());
@@ -3849,6 +3856,10 @@ Case_BaseLdurStur:
         else {
           SizeOp size_op = element_type_to_size_op(op_data.element_vec_type, sop.as<Reg>().reg_type(), sop.as<Vec>().element_type());
           if (!size_op.is_valid())
+            goto InvalidInstruction;
+
+          // The indexed operand has the element type of the (narrow) source elements.
+          if (uint32_t(o2.as<Vec>().element_type()) != size_op.size() + uint32_t(VecElementType::kB))
             goto InvalidInstruction;
 
           uint32_t element_index = o2.as<Vec>().element_index();
@@ -4162,6 +4173,10 @@ Case_BaseLdurStur:
           if (q > 1 || !Support::bit_test(kValidEncodings, (q << 3) | element_type))
             goto InvalidInstruction;
 
+          // The source is Xn for D elements and Wn otherwise.
+          if (o1.as<Reg>().is_gp64() != (element_type == uint32_t(VecElementType::kD)))
+            goto InvalidInstruction;
+
           uint32_t lsb_index = element_type - 1u;
           uint32_t imm5 = 1u << lsb_index;
 
@@ -4196,6 +4211,9 @@ Case_BaseLdurStur:
           // DUP - Vec (all) <- Vec[N].
           uint32_t element_type = uint32_t(o0.as<Vec>().element_type());
           if (q > 1 || !Support::bit_test(kValidEncodings, (q << 3) | element_type))
+            goto InvalidInstruction;
+
+          if (o0.as<Vec>().element_type() != o1.as<Vec>().element_type())
             goto InvalidInstruction;
 
           uint32_t lsb_index = element_type - 1u;
@@ -4234,7 +4252,10 @@ Case_BaseLdurStur:
         indexed_ops = B(0) | B(1);
 
         if (o1.as<Reg>().is_gp()) {
-          // INS - Vec[N] <- GP register.
+          // INS - Vec[N] <- GP register (Xn for D elements and Wn otherwise).
+          if (o1.as<Reg>().is_gp64() != (element_type == uint32_t(VecElementType::kD)))
+            goto InvalidInstruction;
+
           opcode.reset(0b0100111000000000000111 << 10);
           opcode.add_imm(imm5, 16);
           goto EmitOp_Rd0_Rn5;
@@ -4714,7 +4735,7 @@ Case_BaseLdurStur:
         // 64-bit | size==11 | opc == 01 | 011
         // 128-bit| size==00 | opc == 11 | 100
         uint32_t xsz = diff(o0.as<Reg>().reg_type(), RegType::kVec8);
-        if (xsz > 4u || o0.as<Vec>().has_element_index())
+        if (xsz > 4u || o0.as<Vec>().has_element_type_or_index())
           goto InvalidRegType;
 
         if (!check_vec_id(o0))
